@@ -46,3 +46,15 @@ package conversion
 //@   ensures [C16.depth-to-rate] forall(t, 0, inputs.len, outflows.at(t) == inputs.at(t) * (0.001 * area / deltaT))
 //@   loop 0 invariant 0 <= i && i <= nDays
 //@   loop 0 invariant forall(t, 0, i, outflows.at(t) == inputs.at(t) * (0.001 * area / deltaT))
+
+//@ func ratingPartition(input, nPts, inputAmount, proportion, output1, output2)
+//@   noalias
+//@   safety C16
+//@   requires input.len == output1.len && input.len == output2.len
+//@   requires inputAmount.len >= 2 && proportion.len == inputAmount.len
+//@   requires forall(a, 0, inputAmount.len, forall(b, 0, inputAmount.len, implies(a < b, inputAmount.at(a) < inputAmount.at(b))))
+//@   requires forall(t, 0, input.len, inputAmount.at(0) <= input.at(t) && input.at(t) <= inputAmount.at(inputAmount.len-1))
+//@   assigns output1.cells, output2.cells
+//@   ensures [C16.rating-sum] forall(t, 0, input.len, output1.at(t) + output2.at(t) == input.at(t))
+//@   loop 0 invariant 0 <= i && i <= nDays
+//@   loop 0 invariant forall(t, 0, i, output1.at(t) + output2.at(t) == input.at(t))
